@@ -93,10 +93,18 @@ def level(i: int, n: int) -> float:
     return -1.0 + 2.0 * (i - 1) / (n - 1)
 
 
-def exact_int(x: float, den: float) -> int:
+def exact_int(x: float, den: float, approx: bool = False) -> int:
+    """x * den as an integer if it is one (exactly; with approx=True up to the rounding of ONE float32 division by a batch size
+    that is not a power of two: relative 1e-6, far below the distance 1 between two grid values), else OFFGRID"""
     v = float(x) * den
     iv = round(v)
+    if approx and abs(v - iv) <= 1e-6 * abs(iv) + 1e-9 and abs(iv) < 10 ** 6:
+        return int(iv)
     return int(iv) if iv == v and abs(iv) < 10 ** 8 else OFFGRID
+
+
+def _pow2(n: int) -> bool:
+    return n > 0 and n & (n - 1) == 0
 
 
 def jidx(t: List[int], n: int) -> int:
@@ -118,9 +126,16 @@ def _set(mod, values):
 class TabKit:
     """One real agent of `algo` with tabular networks of a fixed shape, re-used for many cases."""
 
-    def __init__(self, algo: str, nsl: int, nal: int, B: int, g2: int, n_agents: int = 1, seed: int = 0):
+    def __init__(self, algo: str, nsl: int, nal: int, B: int, g2: int, n_agents: int = 1, seed: int = 0, vs: float = 1.0,
+                 vary: bool = False, pf: int = 1):
+        """vs: value scale (a power of two): every table entry and reward handed to the real code is the specification's value
+        times vs (vs = 1/4: rewards in quarters, tables in eighths; vs = 4: magnitudes x 4); the Bellman target is linear in
+        them, so observed values / vs (loss / vs^2) must equal the specification's.  vary: rotate the legitimate forms of the
+        same batch (container type, action shape / dtype, done dtype) and of the learn arguments from call to call.
+        pf: policy delay of DDPG / TD3 / MATD3 (the critic loss and its target are the same at policy steps and between them)."""
         from gymnasium import spaces
         self.algo, self.nsl, self.nal, self.B, self.g2, self.n = algo, nsl, nal, B, g2, n_agents
+        self.vs, self.vary, self.form = float(vs), vary, ""
         self.mode = MODE[algo]
         self.multi = algo in ("MADDPG", "MATD3")
         if not self.multi:
@@ -141,12 +156,12 @@ class TabKit:
             from agilerl.algorithms.ddpg import DDPG
             self.agent = DDPG(osp, spaces.Box(-1.0, 1.0, (1,), dtype=np.float32), actor_network=TabActor(nsl),
                               critic_network=TabCritic(1, nsl, nal), batch_size=B, lr_actor=1e-3, lr_critic=1e-3, gamma=gamma, tau=0.5,
-                              policy_freq=1, share_encoders=False)
+                              policy_freq=pf, share_encoders=False)
         elif algo == "TD3":
             from agilerl.algorithms.td3 import TD3
             self.agent = TD3(osp, spaces.Box(-1.0, 1.0, (1,), dtype=np.float32), actor_network=TabActor(nsl),
                              critic_networks=[TabCritic(1, nsl, nal), TabCritic(1, nsl, nal)], batch_size=B, lr_actor=1e-3,
-                             lr_critic=1e-3, gamma=gamma, tau=0.5, policy_freq=1, share_encoders=False)
+                             lr_critic=1e-3, gamma=gamma, tau=0.5, policy_freq=pf, share_encoders=False)
         elif self.multi:
             ids = [f"agent_{i}" for i in range(n_agents)]
             osps = [osp for _ in ids]
@@ -160,13 +175,50 @@ class TabKit:
             else:
                 from agilerl.algorithms.matd3 import MATD3
                 self.agent = MATD3(osps, asps, agent_ids=ids, actor_networks=actors, critic_networks=[mk(), mk()], batch_size=B,
-                                   lr_actor=1e-3, lr_critic=1e-3, gamma=gamma, tau=0.5, policy_freq=1)
+                                   lr_actor=1e-3, lr_critic=1e-3, gamma=gamma, tau=0.5, policy_freq=pf)
         else:
             raise ValueError(algo)
         self.ids = list(self.agent.agent_ids) if self.multi else [None]
         self.seen: List[tuple] = []
-        self.agent.criterion.register_forward_hook(
+        self.hook = None
+        self.watch()
+
+    def watch(self):
+        """observe (only) what enters and leaves the current agent's own criterion"""
+        self.hook = self.agent.criterion.register_forward_hook(
             lambda m, inp, out: self.seen.append((inp[0].detach().clone(), inp[1].detach().clone(), out.detach().clone())))
+
+    def lifecycle(self, op: str):
+        """replace the learner by its clone / by what a checkpoint of it restores (the tabular networks are custom
+        EvolvableModules: clone() and the checkpoint rebuild them from their init_dict)"""
+        if op == "clone":
+            self.agent = self.agent.clone()
+        elif op.startswith("mutate:"):
+            # the real Mutations object; on the tabular networks "arch" / "act" find nothing to mutate (the agent goes through the
+            # no-change path of those mutations), "param" perturbs the tables (overwritten before the next learn), "none" is none
+            from agilerl.hpo.mutation import Mutations
+            kind = op.split(":")[1]
+            import warnings
+            with warnings.catch_warnings():
+                warnings.simplefilter("ignore")
+                m = Mutations(mutation_sd=0.1, mutate_elite=True, rand_seed=len(op) + self.nsl, **KIND_ARGS[kind])
+                self.agent = m.mutation([self.agent])[0]
+        elif op in ("loadnew", "loadinto"):
+            self.hook.remove()                     # the observer is not part of the agent
+            d = tempfile.mkdtemp(prefix="tabkit-")
+            try:
+                path = os.path.join(d, "a.pt")
+                self.agent.save_checkpoint(path)
+                if op == "loadnew":
+                    self.agent = type(self.agent).load(path)
+                else:
+                    self.agent.load_checkpoint(path)
+            finally:
+                shutil.rmtree(d, ignore_errors=True)
+        else:
+            raise ValueError(op)
+        self.agent.criterion._forward_hooks.clear()
+        self.watch()
 
     # ------------------------------------------------------------------ tables
     def nets(self, l: int) -> Dict[str, object]:
@@ -191,7 +243,7 @@ class TabKit:
             nets = self.nets(l)
             for role in ("q1", "q2", "t1", "t2"):
                 if role in nets:
-                    _set(nets[role], np.asarray(tb[role], dtype=np.float64) / 2.0)
+                    _set(nets[role], np.asarray(tb[role], dtype=np.float64) / 2.0 * self.vs)
             if "mu" in nets:
                 _set(nets["mu"], [level(a, self.nal) for a in mus[l]])
                 _set(nets["pi"], [level(a % self.nal + 1, self.nal) for a in mus[l]])
@@ -209,7 +261,7 @@ class TabKit:
                         raise RuntimeError(f"tabular target actor of learner {l} does not read out its table: {got}")
                 else:
                     for role in ("q1", "t1"):
-                        if not torch.equal(nets[role](eye) * 2.0, torch.tensor(tb[role], dtype=torch.float32)):
+                        if not torch.equal(nets[role](eye) * 2.0 / self.vs, torch.tensor(tb[role], dtype=torch.float32)):
                             raise RuntimeError(f"tabular network {role} does not read out its table")
 
     # ------------------------------------------------------------------ batch
@@ -217,30 +269,66 @@ class TabKit:
         return torch.eye(self.nsl)[[i - 1 for i in idx]]
 
     def build_batch(self, rows: List[dict]):
-        """rows[i] = {sl: [s per agent], al: [a per agent], r: [r per learner], s2l: [...], d: [d per learner]} (1-based)"""
+        """rows[i] = {sl: [s per agent], al: [a per agent], r: [r per learner], s2l: [...], d: [d per learner]} (1-based).
+        With self.vary the same batch is handed over in the forms learn() accepts, rotating from call to call: done flags as
+        float32 (replay buffers) or int64; DQN / CQN actions as float or int64 columns, DQN also as an int64 vector (B,);
+        CQN / TD3 experiences as tuple, list or TensorDict; DQN / DDPG as TensorDict or plain dict; the multi-agent
+        dictionaries in different key orders (always)."""
+        from tensordict import TensorDict
         B = len(rows)
         col = lambda xs: torch.tensor([[float(x)] for x in xs], dtype=torch.float32)
+        self.nbatch = getattr(self, "nbatch", 0) + 1
+        v = self.nbatch if self.vary else 0
+        form = []
+
+        def dcol(xs):
+            if v % 3 == 2:
+                if "done:int64" not in form:
+                    form.append("done:int64")
+                return torch.tensor([[int(x)] for x in xs], dtype=torch.int64)
+            return col(xs)
         if not self.multi:
             obs, nobs = self.one_hot([r["sl"][0] for r in rows]), self.one_hot([r["s2l"][0] for r in rows])
-            rew, done = col([r["r"][0] for r in rows]), col([r["d"][0] for r in rows])
+            rew, done = col([r["r"][0] * self.vs for r in rows]), dcol([r["d"][0] for r in rows])
             if self.mode in ("max", "double"):
                 act = col([r["al"][0] - 1 for r in rows])
+                if v % 4 == 1:
+                    act = act.long()
+                    form.append("action:int64(B,1)")
+                elif v % 4 == 3 and self.algo.startswith("DQN"):
+                    act = act.long().reshape(-1)
+                    form.append("action:int64(B,)")
             else:
                 act = col([level(r["al"][0], self.nal) for r in rows])
             if self.algo in ("CQN", "CQN-double", "TD3"):
-                return (obs, act, rew, nobs, done)
-            from tensordict import TensorDict
-            return TensorDict({"obs": obs, "action": act, "reward": rew, "next_obs": nobs, "done": done}, batch_size=[B])
+                tup = (obs, act, rew, nobs, done)
+                if v % 3 == 1:
+                    form.append("batch:TensorDict")
+                    self.form = "+".join(form)
+                    return TensorDict({"obs": obs, "action": act, "reward": rew, "next_obs": nobs, "done": done}, batch_size=[B])
+                if v % 3 == 2:
+                    form.append("batch:list")
+                    tup = list(tup)
+                self.form = "+".join(form)
+                return tup
+            d = {"obs": obs, "action": act, "reward": rew, "next_obs": nobs, "done": done}
+            if v % 4 == 2:
+                form.append("batch:dict")
+                self.form = "+".join(form)
+                return d
+            self.form = "+".join(form)
+            return TensorDict(d, batch_size=[B])
         st = {a: self.one_hot([r["sl"][j] for r in rows]) for j, a in enumerate(self.ids)}
         ns = {a: self.one_hot([r["s2l"][j] for r in rows]) for j, a in enumerate(self.ids)}
         ac = {a: col([level(r["al"][j], self.nal) for r in rows]) for j, a in enumerate(self.ids)}
-        rw = {a: col([r["r"][j] for r in rows]) for j, a in enumerate(self.ids)}
-        dn = {a: col([r["d"][j] for r in rows]) for j, a in enumerate(self.ids)}
+        rw = {a: col([r["r"][j] * self.vs for r in rows]) for j, a in enumerate(self.ids)}
+        dn = {a: dcol([r["d"][j] for r in rows]) for j, a in enumerate(self.ids)}
         # every component is keyed by agent id: handed over in different key orders (a batch is the same batch whatever the order)
-        self.nbatch = getattr(self, "nbatch", 0) + 1
         if self.nbatch % 2 == 0:
+            form.append("keys:rotated")
             rot = lambda d, k: {a: d[a] for a in (list(d)[k % len(d):] + list(d)[:k % len(d)])}
             st, ac, rw, ns, dn = rot(st, 1), {a: ac[a] for a in reversed(list(ac))}, rot(rw, 2), {a: ns[a] for a in reversed(list(ns))}, rot(dn, 1)
+        self.form = "+".join(form)
         return (st, ac, rw, ns, dn)
 
     # ------------------------------------------------------------------ one learn step, observed
@@ -251,15 +339,23 @@ class TabKit:
         batch = self.build_batch(rows)
         self.seen.clear()
         B = len(rows)
-        out = {"exc": "", "learners": []}
+        out = {"exc": "", "learners": [], "form": self.form}
         try:
             if self.algo in ("DDPG", "TD3"):
-                ret = self.agent.learn(batch, policy_noise=0.0)
+                # target policy smoothing is an argument of learn(): switched off by a zero standard deviation or by a zero clip
+                # (a large standard deviation: unclipped noise would move the target action to another level of the tables)
+                if self.vary and self.nbatch % 2 == 1:
+                    self.form = "+".join(x for x in (self.form, "noise_clip=0") if x)
+                    ret = self.agent.learn(batch, noise_clip=0.0, policy_noise=4.0)
+                else:
+                    ret = self.agent.learn(batch, policy_noise=0.0)
             else:
                 ret = self.agent.learn(batch)
         except Exception as e:                                       # recorded: the trace says learn must return
             out["exc"] = f"{type(e).__name__}: {e}"[:300]
+            out["form"] = self.form
             return out
+        out["form"] = self.form
         ncrit = 2 if self.mode == "actormin" else 1
         nl = len(tabs)
         if len(self.seen) != ncrit * nl:
@@ -273,11 +369,12 @@ class TabKit:
                 loss = ret[self.ids[l]][1]
             else:
                 loss = ret[1]
-            rec = {"qe": [[exact_int(v, 4) for v in c[0].reshape(-1).tolist()] for c in calls],
-                   "y": [[exact_int(v, 4) for v in c[1].reshape(-1).tolist()] for c in calls],
+            vs, ap = self.vs, not _pow2(B)
+            rec = {"qe": [[exact_int(v, 4 / vs) for v in c[0].reshape(-1).tolist()] for c in calls],
+                   "y": [[exact_int(v, 4 / vs) for v in c[1].reshape(-1).tolist()] for c in calls],
                    "shape_ok": all(tuple(c[0].shape) == (B, 1) and tuple(c[1].shape) == (B, 1) for c in calls),
-                   "mse": exact_int(sum(float(c[2]) for c in calls), 16 * B),
-                   "loss": float(loss), "lossN": exact_int(loss, 16 * B)}
+                   "mse": exact_int(sum(float(c[2]) for c in calls), 16 * B / (vs * vs), approx=ap),
+                   "loss": float(loss), "lossN": exact_int(loss, 16 * B / (vs * vs), approx=ap)}
             out["learners"].append(rec)
         return out
 
@@ -357,32 +454,50 @@ def _rand_table(rng: random.Random, ns: int, na: int, no_ties: bool) -> List[Lis
     return out
 
 
-def run_tab_trace(algo: str, *, nsl: int, nal: int, n: int, B: int, g2: int, seed: int, learns: int = 3) -> dict:
+def run_tab_trace(algo: str, *, nsl: int, nal: int, n: int, B: int, g2: int, seed: int, learns: int = 3, vs: float = 1.0,
+                  vary: bool = False, lifecycle: bool = False, Bs: Optional[List[int]] = None, vss: Optional[List[float]] = None,
+                  pf: int = 1) -> dict:
     """`learns` real learn() calls of one tabular agent on random tables / batches; one "loss" event per learner
-    and call, for Bellman_Trace.  B must be a power of two (exact mean)."""
+    and call, for Bellman_Trace.  B a power of two: the mean is exact; otherwise the returned loss is taken up to the rounding
+    of the one division (exact_int approx).  vs: value scale (see TabKit); Bs / vss: batch size / value scale of the successive
+    learn calls (rotating; default: B and vs throughout); vary: rotate batch forms / learn arguments;
+    lifecycle: between the learn calls the learner is replaced by its clone / by its checkpoint loaded into a new or into the
+    same agent / goes through a real Mutations round ("directly after clone, mutation and checkpoint load")."""
     rng = random.Random(seed)
-    kit = TabKit(algo, nsl, nal, B, g2, n_agents=n, seed=seed)
+    kit = TabKit(algo, nsl, nal, B, g2, n_agents=n, seed=seed, vs=vs, vary=vary, pf=pf)
     jns, jna = nsl ** n, nal ** n
     cfg = {"algo": algo, "mode": kit.mode, "g2": g2, "n": n, "nsl": nsl, "nal": nal, "B": B, "seed": seed, "learns": learns,
-           "regularised": int(algo.startswith("CQN"))}
+           "regularised": int(algo.startswith("CQN")), "vs": vs, "vary": bool(vary), "lifecycle": bool(lifecycle),
+           "Bs": list(Bs or []), "vss": list(vss or []), "pf": pf}
     evs = []
-    for _ in range(learns):
+    lrng = random.Random(seed + 77)
+    for it in range(learns):
+        Bi = Bs[it % len(Bs)] if Bs else B
+        kit.vs = float(vss[it % len(vss)]) if vss else float(vs)
         tabs = [{"q1": _rand_table(rng, jns, jna, kit.mode == "double"), "q2": _rand_table(rng, jns, jna, False),
                  "t1": _rand_table(rng, jns, jna, False), "t2": _rand_table(rng, jns, jna, False)} for _ in range(n)]
         mus = [[rng.randint(1, nal) for _ in range(nsl)] for _ in range(n)]
         rows = [{"sl": [rng.randint(1, nsl) for _ in range(n)], "al": [rng.randint(1, nal) for _ in range(n)],
                  "r": [rng.randint(-2, 2) for _ in range(n)], "s2l": [rng.randint(1, nsl) for _ in range(n)],
-                 "d": [int(rng.random() < 0.4) for _ in range(n)]} for _ in range(B)]
-        obs = kit.learn(tabs, mus, rows)
+                 "d": [int(rng.random() < 0.4) for _ in range(n)]} for _ in range(Bi)]
+        after = "learn" if it else "create"
+        lc_exc = ""
+        if lifecycle and it:
+            after = ("clone", "loadnew", "loadinto", "mutate:none", "mutate:param", "mutate:arch")[(lrng.randrange(6) + it) % 6]
+            try:
+                kit.lifecycle(after)
+            except Exception as e:                                   # noqa: BLE001  (recorded: the trace says the operations return)
+                lc_exc = f"{after}: {type(e).__name__}: {e}"[:300]
+        obs = kit.learn(tabs, mus, rows) if not lc_exc else {"exc": lc_exc, "learners": [], "form": ""}
         for l in range(n):
             ev = {"op": "loss", "learner": l + 1, "exc": obs["exc"], "tab": tabs[l], "mus": mus,
                   "rows": [{"sl": r["sl"], "al": r["al"], "s2l": r["s2l"], "r": r["r"][l], "d": r["d"][l]} for r in rows],
-                  "kind": kind_of(rows, l)}
+                  "kind": kind_of(rows, l), "after": after, "form": obs.get("form", ""), "vs": kit.vs}
             if not obs["exc"]:
                 o = obs["learners"][l]
                 ev.update({"qe": o["qe"], "y": o["y"], "lossN": o["lossN"], "mse": o["mse"], "shape_ok": bool(o["shape_ok"]), "loss": o["loss"]})
             else:
-                ev.update({"qe": [], "y": [], "lossN": OFFGRID, "mse": OFFGRID, "shape_ok": False, "loss": None})
+                ev.update({"qe": [], "y": [], "lossN": OFFGRID, "mse": OFFGRID, "shape_ok": False, "loss": "none"})   # (no JSON null: TLC)
             evs.append(ev)
         if obs["exc"]:
             break
@@ -398,13 +513,33 @@ VARIANTS = {   # variant -> (zoo algo, constructor kwargs, learn style)
     "RainbowDQN-nstep-combined": ("RainbowDQN", {"n_step": 3, "combined_reward": True}, "nstep"),
     "DDPG": ("DDPG", {}, "plain"), "TD3": ("TD3", {}, "plain"), "MADDPG": ("MADDPG", {}, "plain"), "MATD3": ("MATD3", {}, "plain"),
 }
+# heterogeneous teams (agents with observation and action spaces of different sizes); vector observations only
+HETERO = {"MADDPG-hetero": ("MADDPG", {"hetero": True}, "plain"), "MATD3-hetero": ("MATD3", {"hetero": True}, "plain")}
+VARIANTS_ALL = dict(VARIANTS, **HETERO)
+
+
+def _make_hetero(algo: str, seed: int, index: int, policy_freq: int):
+    """MADDPG / MATD3 like zoo.make_agent builds them, but pred_0: Box(4) observations, 2 action dimensions; prey_0: Box(3), 1"""
+    from gymnasium import spaces
+    from .. import zoo
+    zoo.seed_all(seed)
+    ids = ["pred_0", "prey_0"]                  # different groups (agents of one group must share their spaces)
+    osps = [spaces.Box(-1.0, 1.0, (4,), dtype=np.float32), spaces.Box(-1.0, 1.0, (3,), dtype=np.float32)]
+    asps = [spaces.Box(-1.0, 1.0, (2,), dtype=np.float32), spaces.Box(-1.0, 1.0, (1,), dtype=np.float32)]
+    mod = __import__(f"agilerl.algorithms.{algo.lower()}", fromlist=[algo])
+    extra = {"policy_freq": policy_freq} if algo == "MATD3" else {}
+    return getattr(mod, algo)(osps, asps, agent_ids=ids, batch_size=8, lr_actor=1e-3, lr_critic=2e-3, tau=0.5, index=index,
+                              hp_config=zoo.hp_config(algo), net_config=zoo.net_config("vector"), **extra)
 
 
 def make_variant(variant: str, family: str, seed: int, index: int = 0, policy_freq: int = 1, tau: Optional[float] = None,
                  gamma: Optional[float] = None):
     from .. import zoo
-    algo, kw, _ = VARIANTS[variant]
-    ag = zoo.make_agent(algo, family, seed=seed, index=index, policy_freq=policy_freq, **kw)
+    algo, kw, _ = VARIANTS_ALL[variant]
+    if kw.get("hetero"):
+        ag = _make_hetero(algo, seed, index, policy_freq)
+    else:
+        ag = zoo.make_agent(algo, family, seed=seed, index=index, policy_freq=policy_freq, **kw)
     if algo == "DDPG" and policy_freq != 1:
         ag.policy_freq = policy_freq            # the zoo builds DDPG with policy_freq=1; it is a plain attribute read by learn()
     if tau is not None:
@@ -513,7 +648,7 @@ def run_diff(variant: str, family: str, *, seed: int, gamma: Optional[float] = N
     rounding (and the network's 1e-3 clamp), so equality is taken up to 1e-5 + the observed relative mass difference."""
     from .. import zoo
     from ..project import agent as proj
-    algo, kw, style = VARIANTS[variant]
+    algo, kw, style = VARIANTS_ALL[variant]
     multi = algo in zoo.MULTI
     rainbow = algo == "RainbowDQN"
     rng = random.Random(seed)
@@ -556,6 +691,7 @@ def run_diff(variant: str, family: str, *, seed: int, gamma: Optional[float] = N
 
     def one_run(done_pattern, pert_rows, learner):
         ag = make_variant(variant, family, seed, gamma=gamma)
+        ag.batch_size = B                                     # the learners are handed batches of their configured size
         for w in range(warm):                                 # targets and online networks differ, optimiser has state
             zoo.learn(ag, algo, 900 + w)
         bs = batches(ag, done_pattern, pert_rows, learner)
@@ -776,7 +912,7 @@ class TrackRunner:
 
     def __init__(self, variant: str, family: str, *, pf: int, tau: float, seed: int, nslots: int = 3):
         self.variant, self.family, self.pf, self.tau, self.seed, self.nslots = variant, family, pf, tau, seed, nslots
-        self.algo, self.kw, self.style = VARIANTS[variant]
+        self.algo, self.kw, self.style = VARIANTS_ALL[variant]
         self.slots = [None] * (nslots + 1)
         self.ev: List[dict] = []
         self.dir = tempfile.mkdtemp(prefix="track-")
@@ -941,10 +1077,12 @@ def _all_modules(ag):
     return out
 
 
-def script(rng: random.Random, pf: int, length: int = 14) -> List[tuple]:
+def script(rng: random.Random, pf: int, length: int = 14, dense: float = 0.0) -> List[tuple]:
     """A life-cycle script over 3 slots and 2 files: learn steps interleaved with clone / mutate / save / load, so that
     every life-cycle operation is directly followed by learn steps of the agent it produced.  `length` bounds the
-    number of operations (approximately)."""
+    number of operations (approximately).  dense > 0: with that probability a life-cycle operation is NOT followed by learn
+    steps but directly by the next life-cycle operation on the agent it produced (clone right after a mutation, mutation of a
+    freshly loaded agent, two mutations in a row, ...), the learn steps come after the chain."""
     ops: List[tuple] = [("create", 1)]
     alive = {1}
     saved = set()
@@ -957,6 +1095,7 @@ def script(rng: random.Random, pf: int, length: int = 14) -> List[tuple]:
             ops.append(("learn", a, bid))
 
     learns(1, pf + 1)
+    chained = None
     segs = ["clone", "mutate", "mutate", "loadnew", "loadinto"]
     rng.shuffle(segs)
     while len(ops) < length:
@@ -965,6 +1104,8 @@ def script(rng: random.Random, pf: int, length: int = 14) -> List[tuple]:
             rng.shuffle(segs)
         seg = segs.pop()
         a = rng.choice(sorted(alive))
+        if chained is not None:
+            a = chained
         tgt = a
         if seg in ("clone", "loadnew") and len(alive) == 3:
             seg = "mutate" if seg == "clone" else "loadinto"
@@ -989,7 +1130,13 @@ def script(rng: random.Random, pf: int, length: int = 14) -> List[tuple]:
                 tgt = c
             else:
                 ops.append(("loadinto", f, a))
+        if dense > 0 and rng.random() < dense and len(ops) < length:
+            chained = tgt
+            continue
+        chained = None
         learns(tgt, rng.randint(1, pf + 1))
         if rng.random() < 0.3:
             learns(rng.choice(sorted(alive)), 1)
+    if chained is not None:
+        learns(chained, pf + 1)
     return ops
